@@ -743,7 +743,9 @@ func (c *Ctx) c15Protocol() {
 				firstDel = i
 			}
 		}
-		if ownDefer < 0 || firstDel >= 0 && ownDefer > firstDel {
+		if ownDefer < 0 && cutRes == nil && firstDel < 0 {
+			// a path that returns before anything was cut from the index has nothing to put back
+		} else if ownDefer < 0 || firstDel >= 0 && ownDefer > firstDel {
 			r.Bad("R15.3", name, "put-back-not-deferred", c.Pos(p.RetPos), "the put-back of unprocessed keys is not registered with defer before the deleters run", shortTrace(p))
 		}
 		// deferred put-back on every exit that still holds cut lists: present as deferred events under mu
